@@ -77,6 +77,26 @@ def run(ctx):
         raise vlib.Infra("too few crash scenarios executed (%d, competing candidates)" % s2["scenarios"])
     s["fails"] = (s["fails"] or []) + (s2["fails"] or [])
     s["scenarios"] += s2["scenarios"]
+    # competing candidates with the SAME shape and other values (two values per key), and up to two operations after the crash and
+    # the retry: a competing candidate committed after the reopen, the earlier candidate finalized - whatever the database kept in
+    # memory only (sequence numbers handed out, batch indices) is gone by then
+    out3 = ctx.path("crash3.json")
+    scratch3 = ctx.path("crashdbs3")
+    os.makedirs(scratch3)
+    vh3 = vlib.popen_vh(["nodedb-crash", "-in", "-", "-out", out3, "-every", "40" if q else "2", "-scratch", scratch3])
+    g3 = vlib.run_tlc(ctx, d, "MCNodeDBCrash", "gen_crash3.cfg", timeout=3000, sink=vh3.stdin)
+    vh3.stdin.close()
+    if vh3.wait() != 0:
+        raise vlib.Infra("nodedb-crash failed (continued operation)")
+    vlib.tlc_must_pass(ctx, g3, "crash scenario generation (continued operation)")
+    s3 = json.load(open(out3))
+    ctx.log("crash (same-shape candidates, operations after the crash): %d scenarios from %d/%d histories" % (s3["scenarios"], s3["behaviours"], g3.emitted))
+    if s3["infra"] and len(s3["infra"]) > max(3, s3["scenarios"] // 50):
+        raise vlib.Infra("crash children failed: %s" % s3["infra"][:3])
+    if s3["scenarios"] < 50:
+        raise vlib.Infra("too few crash scenarios executed (%d, continued operation)" % s3["scenarios"])
+    s["fails"] = (s["fails"] or []) + (s3["fails"] or [])
+    s["scenarios"] += s3["scenarios"]
     # fixed corpus (specs/mkvs/corpus): histories whose crash scenarios must run in every tier and with every seed, whatever
     # representative histories TLC happened to pick (its choice among equivalent predecessors varies from run to run).
     # crash_prune_lone: Prune of a version whose roots have no derived roots (IO roots of every runtime round are such roots).
